@@ -398,6 +398,8 @@ def _sympy(e):
         return r
     if e.is_Pow:
         b, ex = e.args
+        if ex.is_Float and float(ex) == int(float(ex)):
+            ex = sympy.Integer(int(float(ex)))
         if ex.is_Integer and ex >= 0:
             return _sympy(b) ** int(ex)
         if b == 2 and ex == sympy.Rational(1, 2):
